@@ -706,5 +706,5 @@ func ruleC18R6(c *Ctx) {
 			c.check(!dbl, "C18.R6", fn, "at most once: "+a.key, a.in.Pos(), "no path from this site reaches a Signal/close of the same object", why)
 		}
 	}
-	c.floor("C18.R6", "Signal/close sites", n, 12)
+	c.floor("C18.R6", "Signal/close sites", n, 8)
 }
